@@ -451,6 +451,7 @@ func (m SmallMap) Delete(key Object) (Map, bool) {
 		m.smallKV[i] = m.smallKV[i+1]
 	}
 	m.len--
+	m.smallKV[m.len] = keyValuePair{} // no stale pair beyond len: the struct is compared and hashed whole as a cache key.
 	return m, true
 }
 
